@@ -8,14 +8,14 @@ import Mathlib.Tactic.Ring
 namespace Psutil.C19
 open Spec
 
-/-- the configuration under which the full statements hold (what the repaired source yields) -/
+/-- the configuration under which the full statements hold (what the repaired source yields).
+    Nothing here forbids the source to catch MORE (e.g. ValueError around the fan reading). -/
 structure Cfg.Good (c : Cfg) : Prop where
   tempOs : Exc.osError ∈ c.tempCaught
   tempVal : Exc.valueError ∈ c.tempCaught
   zoneOs : Exc.osError ∈ c.zoneCaught
   zoneVal : Exc.valueError ∈ c.zoneCaught
   fanOs : Exc.osError ∈ c.fanCaught
-  fanVal : Exc.valueError ∉ c.fanCaught
   conv : c.zoneConvInsideLoop = false
   milli : c.milli = 1000
   backfill : c.backfillTruthiness = false
